@@ -29,6 +29,7 @@ def run(tier, seed, replay=None):
     return EL.standard_run(
         PID, tier, seed, replay, MC, corpus,
         nontrivial=lambda t: any(e.get("p", [1, 1]) not in ([1, 1], [0, 0]) for e in t["events"]),
+        role3={"quick": [dict(family="dictators", max_ballots=1, max_w=2)], "thorough": [dict(family="dictators", max_ballots=2, max_w=2)]},
         rule_text="every random draw of the real code is replaced by a scripted source and *all* outcomes are enumerated, so the code's exact "
                   "law of each round given the rounds before it is known (a rational, no sampling error); TLC validates that each recorded "
                   "round is a successor of the probability-labelled actions DictatorDraw / BoostedDraw / tie resolutions of Election.tla "
